@@ -29,7 +29,7 @@ pub struct Env {
 fn fmt_data(d: &Data) -> String {
     match d {
         Data::Bucket(b) => format!("B:{}", hex(b.name())),
-        Data::KeyValue(kv) => format!("K:{}:{}", hex(kv.key()), hex(kv.value())),
+        Data::KeyValue(kv) => format!("K:{}:{}", hex(kv.key()), vtok(kv.value())),
     }
 }
 
@@ -265,7 +265,7 @@ impl Env {
                 let b = &self.buckets.get(&num(2)).expect("unknown handle").1;
                 match b.put(unhex(f[3]), unhex(f[4])) {
                     Ok(None) => "ok:none".into(),
-                    Ok(Some(kv)) => format!("ok:K:{}:{}", hex(kv.key()), hex(kv.value())),
+                    Ok(Some(kv)) => format!("ok:K:{}:{}", hex(kv.key()), vtok(kv.value())),
                     Err(e) => err_class(&e),
                 }
             }
@@ -280,13 +280,13 @@ impl Env {
                 let b = &self.buckets.get(&num(2)).expect("unknown handle").1;
                 match b.get_kv(unhex(f[3])) {
                     None => "none".into(),
-                    Some(kv) => format!("K:{}:{}", hex(kv.key()), hex(kv.value())),
+                    Some(kv) => format!("K:{}:{}", hex(kv.key()), vtok(kv.value())),
                 }
             }
             "del" => {
                 let b = &self.buckets.get(&num(2)).expect("unknown handle").1;
                 match b.delete(unhex(f[3])) {
-                    Ok(kv) => format!("ok:K:{}:{}", hex(kv.key()), hex(kv.value())),
+                    Ok(kv) => format!("ok:K:{}:{}", hex(kv.key()), vtok(kv.value())),
                     Err(e) => err_class(&e),
                 }
             }
@@ -352,7 +352,7 @@ impl Env {
             }
             "kvpairs" => {
                 let b = &self.buckets.get(&num(2)).expect("unknown handle").1;
-                let v: Vec<String> = b.kv_pairs().map(|kv| format!("K:{}:{}", hex(kv.key()), hex(kv.value()))).collect();
+                let v: Vec<String> = b.kv_pairs().map(|kv| format!("K:{}:{}", hex(kv.key()), vtok(kv.value()))).collect();
                 fmt_list(&v)
             }
             "file" => {
@@ -377,6 +377,23 @@ impl Env {
                 f.read_exact(&mut buf[2 * ps..]).expect("read body");
                 std::fs::write(&snap, &buf).expect("write snapshot");
                 snap
+            }
+            "flstate" => {
+                // in-memory shared free list (hook accessor): free set and pending lists
+                let db = self.db.as_ref().expect("db open");
+                let (free, pending) = jammdb::verif::shared_freelist(db);
+                let fl = |v: &Vec<u64>| format!("[{}]", v.iter().map(|x| x.to_string()).collect::<Vec<_>>().join(","));
+                let pend: Vec<String> = pending.iter().map(|(t, v)| format!("{}:{}", t, fl(v))).collect();
+                format!("free={};pending={}", fl(&free), pend.join(";"))
+            }
+            "readers" => {
+                let db = self.db.as_ref().expect("db open");
+                let r = jammdb::verif::open_readers(db);
+                format!("[{}]", r.iter().map(|x| x.to_string()).collect::<Vec<_>>().join(","))
+            }
+            "tree" => {
+                let b = &self.buckets.get(&num(2)).expect("unknown handle").1;
+                jammdb::verif::tree_dump(b)
             }
             "fhash" => {
                 // FNV-1a over the whole file: "the file's bytes are unchanged"
